@@ -126,7 +126,8 @@ def displaybpm(
     timing fields, the chart will be used as the source of timing.
     """
     properties = timing_source(simfile, ssc_chart)
-    if "DISPLAYBPM" in properties and not ignore_specified:
+    # A key-only "#DISPLAYBPM;" has no value and is treated like an absent one
+    if properties.get("DISPLAYBPM") is not None and not ignore_specified:
         displaybpm_value = properties["DISPLAYBPM"]
         try:
             if displaybpm_value == "*":
